@@ -38,7 +38,9 @@ macro_rules
       (repeat' (apply And.intro)) <;>
       first
         | omega
+        | (simp only [$top,*]; omega)
         | (simp only [$top,*]; c07_arith)
+        | (simp only [$mid,*, Bee2V.C07.n64, Bee2V.C07.n32, Bee2V.C07.n8, Bee2V.C07.n4] at *; omega)
         | (simp only [$mid,*, Bee2V.C07.n64, Bee2V.C07.n32, Bee2V.C07.n8, Bee2V.C07.n4] at *; c07_arith)
         | (simp only [$all,*]; c07_arith)
         | (simp only [$all,*] at *; c07_arith))
